@@ -41,6 +41,8 @@ def check_extract(spec, ctx):
     labels(ctx, spec)
     g, alpha, L = spec["genome"], spec["alphabet"], spec["loc"]
     rtype = spec.get("root_type")
+    if max(b[1] for b in L["blocks"]) > max(L["blocks"], key=lambda b: (b[0], b[1]))[1]:
+        ctx.label("last_block_nested")
     if spec.get("decoy") and L["strand"] != "." and len(g) > 1:
         # another molecule with the same name, type, alphabet and length but other bases (another strain's "chr1", an edited copy)
         # was read at the very same coordinates just before: nothing of it may show through
@@ -98,6 +100,14 @@ def check_extract(spec, ctx):
     ctx.eq("extract_image", str(seq), exp)
     ctx.eq("extract_len", len(seq), len(pos))
     ctx.eq("extract_alphabet", seq.alphabet.name, alpha)
+    # character i of the sequence is the base (complemented on minus) at the parent position the location's own coordinate map
+    # names for relative position i - also asked AFTER the extraction, for nested and staggered blocks too
+    try:
+        via_map = [loc.relative_to_parent_pos(i) for i in range(len(pos))]
+        if ctx.true("coordinate_map_inside_sequence", all(0 <= p_ < len(g) for p_ in via_map), via_map):
+            ctx.eq("sequence_agrees_with_coordinate_map", str(seq), rm.seq_image(g, via_map, L["strand"]), extra=via_map)
+    except Exception as e:
+        ctx.fail("coordinate_map_raises_after_extraction", repr(e)[:100])
     # second call (cached for single intervals) gives the same
     ctx.eq("extract_repeat", str(loc.extract_sequence()), exp)
     # reversing the strand reverse-complements
@@ -261,6 +271,13 @@ def base_spec(draw, tier, strands):
     big = tier == "thorough"
     alpha = draw(st.sampled_from(NT_ALPHABETS))
     L = draw(S.location_spec(max_k=5 if big else 4, allow_overlap=draw(st.integers(0, 6)) == 0, allow_nested=True, max_len=8, shift_prob=0, strands=strands))
+    last = max(L["blocks"], key=lambda b: (b[0], b[1]))
+    if last[1] - last[0] >= 3 and draw(st.integers(0, 7)) == 0:
+        # a block nested strictly inside the last-starting block: it starts last and ends before an earlier block does
+        # (the location's end is then not the end of its last block)
+        a = draw(st.integers(last[0] + 1, last[1] - 2))
+        L["blocks"].append([a, draw(st.integers(a + 1, last[1] - 1))])
+        L["order"] = [len(L["blocks"]) - 1] + L["order"] if draw(st.booleans()) else L["order"] + [len(L["blocks"]) - 1]
     hi = max(b[1] for b in L["blocks"])
     n = hi + draw(st.integers(0, 4))
     g = draw(S.genome(n, alpha, mixed_case=draw(st.booleans())))
